@@ -18,6 +18,7 @@ type PipeOpts struct {
 	BlockNames    []string // variable names the pipeline env block may (re)define (referenced by Refs)
 	MaxGroupDepth int      // nesting of groups (default 2)
 	Signature     bool     // literal `signature` records on command steps
+	Coincide      bool     // plant coincidences between independently drawn strings (see coincide)
 	NoTime        bool
 	SmallInts     bool // integers and floats stay exactly representable and small (signing workloads)
 	BigMaps       bool // some Go-map-backed mappings get 9-40 entries
@@ -86,6 +87,9 @@ func Pipeline(r *rand.Rand, o PipeOpts) (*PipeDoc, error) {
 	}
 	g := &pgen{r: r, o: o, d: &PipeDoc{Feat: map[string]int{}}}
 	root := g.pipeline()
+	if o.Coincide && g.chance(3) {
+		g.coincide(root)
+	}
 	g.d.Root = root
 	plain, err := doc.ResolveMerges(root, 400000)
 	if err != nil {
@@ -93,6 +97,77 @@ func Pipeline(r *rand.Rand, o PipeOpts) (*PipeDoc, error) {
 	}
 	g.d.Plain = plain
 	return g.d, nil
+}
+
+// coincide plants what independent random choices never produce: a string
+// value that equals another value elsewhere in the document, a value that
+// equals a key (its own or another mapping's), or a word that means
+// something elsewhere in the format. Only string *values* are overwritten,
+// so the structure (keys, kinds, sharing) stays as generated; values whose
+// meaning is fixed by their key (`type`, `skip`, the alias family of
+// key/label) are left alone.
+func (g *pgen) coincide(root *doc.Node) {
+	var vals []*doc.Node
+	var keys []string
+	seen := map[*doc.Node]bool{}
+	var walk func(n *doc.Node, parentKey string)
+	walk = func(n *doc.Node, parentKey string) {
+		if n == nil || seen[n] {
+			return
+		}
+		seen[n] = true
+		switch n.Kind {
+		case doc.KStr:
+			switch parentKey {
+			case "type", "skip", "key", "label", "name", "id", "identifier", "group", "algorithm", "plugins": // (a bare string under `plugins` is a plugin source, with its own grammar)
+			default:
+				if n.Str != "" {
+					vals = append(vals, n)
+				}
+			}
+		case doc.KSeq:
+			for _, e := range n.Seq {
+				walk(e, parentKey)
+			}
+		case doc.KMap:
+			for _, p := range n.Map {
+				if !p.Merge && p.Key != "" {
+					keys = append(keys, p.Key)
+				}
+				walk(p.Val, p.Key)
+			}
+		}
+	}
+	walk(root, "")
+	if len(vals) < 2 {
+		return
+	}
+	magic := []string{"null", "true", "false", "~", "env", "steps", "type", "command", "commands", "plugins", "matrix", "wait", "block", "trigger", "group", "0", "{{matrix}}", "setup", "with", "env::X", "signature", "-", "[]", "{}"}
+	for k, n := 0, 1+g.r.IntN(3); k < n; k++ {
+		dst := vals[g.r.IntN(len(vals))]
+		switch g.r.IntN(4) {
+		case 0:
+			if len(keys) > 0 {
+				dst.Str = keys[g.r.IntN(len(keys))]
+				g.feat("coincidence:value-equals-a-key")
+			}
+		case 1:
+			if !g.o.UniqueStrings || len(g.o.Refs) == 0 {
+				dst.Str = magic[g.r.IntN(len(magic))]
+				g.feat("coincidence:magic-word")
+			}
+		default:
+			src := vals[g.r.IntN(len(vals))]
+			if src != dst && len(src.Str) <= 300 { // a bare-string plugin becomes a key on the way out: keys stay within YAML's implicit-key limit
+				dst.Str = src.Str
+				g.feat("coincidence:two-values-equal")
+			}
+		}
+		dst.Style = doc.StylePlain
+		if !doc.PlainSafe(dst.Str) {
+			dst.Style = doc.StyleDouble
+		}
+	}
 }
 
 func (g *pgen) feat(f string) { g.d.Feat[f]++ }
@@ -270,6 +345,14 @@ func (g *pgen) extras(m *doc.Node, class string, reserved map[string]bool, max i
 		}
 		m.Map = append(m.Map, doc.P(k, g.value(class)))
 		g.feat("extras@" + class)
+	}
+	if len(g.o.Refs) == 0 && !g.o.UniqueStrings && g.chance(15) {
+		// an unknown key spelled like a Go identifier of the struct that holds it (the yaml names are lower-case)
+		k := Pick(g.r, []string{"Env", "Key", "Label", "Plugins", "Command", "RemainingFields", "Steps", "Setup", "With", "Name", "Contents", "Matrix", "Cache", "Signature", "Skip", "Group"})
+		if !reserved[k] && !m.Has(k) {
+			m.Map = append(m.Map, doc.P(k, g.value(class)))
+			g.feat("extras:go-field-name@" + class)
+		}
 	}
 	g.shadowPairs(m, class)
 }
